@@ -144,6 +144,8 @@ session table (`sid, backend, kind, user, attached connection`). -/
 structure Obs where
   reply : Reply
   sessions : List Sess
+  /-- `Hub.clients` at rest: (connection, session, the entry's session is not the live session of that id) -/
+  clients : List (Nat × Nat × Bool) := []
 
 structure Judge where
   /-- session table observed after the previous op -/
@@ -159,8 +161,12 @@ def whyInvalid (cfg : Cfg) (m : Hello) : String :=
   else if !(allBackends cfg).any (fun b => namesB cfg u b && srvOk b u.srv) then "accepted-by-a-server-that-is-not-the-named-backend"
   else "credentials-do-not-verify"
 
-def Judge.observe (cfg : Cfg) (env : Env) (now : Int) (j : Judge) (op : Op) (o : Obs) : Judge × String :=
-  let j' : Judge := { sessions := o.sessions }
+/-- A connection the hub keeps for a session that is not in its session table (or is another object than
+the one in the table): whoever got it there holds a session that is not live. -/
+def Obs.dangling (o : Obs) : Bool :=
+  o.clients.any (fun k => k.2.2 || !o.sessions.any (fun s => s.sid = k.2.1))
+
+def Judge.observe1 (cfg : Cfg) (env : Env) (now : Int) (j : Judge) (op : Op) (o : Obs) : Judge × String :=
   let unchanged := decide (o.sessions = j.sessions)
   let authed (c : Nat) := j.sessions.any (fun s => s.conn = some c)
   match op with
@@ -168,8 +174,12 @@ def Judge.observe (cfg : Cfg) (env : Env) (now : Int) (j : Judge) (op : Op) (o :
     match o.reply with
     | .hello sid bid _ _ =>
       if authed c then (j', "violated:hello-answered-on-authenticated-connection")
-      else if validCredsB cfg env now j.live m sid bid then (j', "ok")
-      else (j', "violated:session-without-valid-credentials:" ++ whyInvalid cfg m)
+      else if !validCredsB cfg env now j.live m sid bid then
+        (j', "violated:session-without-valid-credentials:" ++ whyInvalid cfg m)
+      else if !o.sessions.any (fun s => s.sid = sid ∧ s.conn = some c) then
+        -- nothing else runs during this op: the session the reply names is live and has this connection
+        (j', "violated:hello-reply-without-a-live-session")
+      else (j', "ok")
     | .closed => (j', "na")
     | _ =>
       -- refused (or ignored): no session may have appeared
@@ -190,5 +200,27 @@ def Judge.observe (cfg : Cfg) (env : Env) (now : Int) (j : Judge) (op : Op) (o :
       | .error _ => if unchanged then (j', "ok") else (j', "violated:request-before-hello-changed-session-table")
       | _ => (j', "violated:request-before-hello-not-answered-with-error")
   | _ => (j', "na")
+where j' : Judge := { sessions := o.sessions }
+
+/-- the verdict of `observe1`, and for every op: no connection is kept for a session that is not live -/
+def Judge.observe (cfg : Cfg) (env : Env) (now : Int) (j : Judge) (op : Op) (o : Obs) : Judge × String :=
+  let r := j.observe1 cfg env now op o
+  if (r.2 == "ok" || r.2 == "na") && o.dangling then (r.1, "violated:connection-kept-for-a-session-that-is-not-live")
+  else r
+
+/-- A hello with the resume id of live session `sid` on connection `c` while that session ends
+(`bye` of its connection, expiry, kick), judged at rest: whichever came first, the tables are those of
+"the session has ended" — a connection still kept for it was attached to a session that was no longer
+live, and if it was told `hello sid` it holds a session for a resume id of no live session. -/
+def Judge.observeRace (j : Judge) (sid : Nat) (gotHello : Bool) (o : Obs) : Judge × String :=
+  let j' : Judge := { sessions := o.sessions }
+  if o.dangling then
+    if gotHello then (j', "violated:session-without-valid-credentials:resume-id-of-a-session-that-has-ended")
+    else (j', "violated:connection-kept-for-a-session-that-is-not-live")
+  else if o.sessions.any (fun s => s.sid = sid) then (j', "violated:ended-session-still-in-the-table")
+  else if gotHello then
+    -- attached while the session was live (it was: the previous observation has it), ended afterwards
+    if j.sessions.any (fun s => s.sid = sid) then (j', "ok") else (j', "violated:session-without-valid-credentials:resume-id-of-no-live-session")
+  else (j', "ok")
 
 end SigModel.Auth
